@@ -511,6 +511,8 @@ func checkPullReadback(r *vk.Run, hdrLen, cut int) {
 		srv.Close()
 	}()
 	var got []ref.FlvTag
+	var held []httpflv.Tag
+	var heldCopy [][]byte
 	var mu sync.Mutex
 	s := httpflv.NewPullSession(func(o *httpflv.PullSessionOption) { o.PullTimeoutMs = 5000; o.ReadTimeoutMs = 5000 })
 	pullDialMu.Lock()
@@ -518,6 +520,8 @@ func checkPullReadback(r *vk.Run, hdrLen, cut int) {
 	err := s.Pull("http://origin.invalid/live/s.flv", func(tag httpflv.Tag) {
 		mu.Lock()
 		got = append(got, ref.FlvTag{Type: tag.Header.Type, Ts: tag.Header.Timestamp, Payload: append([]byte{}, tag.Payload()...)})
+		held = append(held, tag) // kept as handed over: the callback's contract says the session does not reuse the memory
+		heldCopy = append(heldCopy, append([]byte{}, tag.Raw...))
 		mu.Unlock()
 	})
 	httpflv.VerifDialFn = nil
@@ -544,6 +548,12 @@ func checkPullReadback(r *vk.Run, hdrLen, cut int) {
 		}
 		r.Violation("pull-readback/tags", fmt.Sprintf("%s: lal's pull client called back %d tags %v, the response holds %d", desc, len(got), gt, len(want)), rp)
 		return
+	}
+	for i := range held {
+		if !bytes.Equal(held[i].Raw, heldCopy[i]) {
+			r.Violation("pull-readback/held-tag-changed", fmt.Sprintf("%s: tag %d of %d, kept by the callback, changed after later tags were read", desc, i, len(held)), rp)
+			return
+		}
 	}
 	for i := range got {
 		if !sameTag(got[i], want[i]) {
